@@ -96,7 +96,9 @@ func c15Universe() (WorldSpec, []absOp) {
 		{"mint A 1", self(vmcommon.BuiltInFunctionESDTLocalMint, A, fixed(F, []byte{1}))},
 		{"localburn A all", self(vmcommon.BuiltInFunctionESDTLocalBurn, A, func(e *Engine) [][]byte { return [][]byte{F, bal(e, A, string(F))} })},
 		{"localburn A 1", self(vmcommon.BuiltInFunctionESDTLocalBurn, A, fixed(F, []byte{1}))},
-		{"burn A all", func(e *Engine) *Call { return call(0, vmcommon.BuiltInFunctionESDTBurn, A, sys, F, bal(e, A, string(F))) }},
+		{"burn A all", func(e *Engine) *Call {
+			return call(0, vmcommon.BuiltInFunctionESDTBurn, A, sys, F, bal(e, A, string(F)))
+		}},
 		{"transfer A->B 1", transfer(A, B, false)},
 		{"transfer A->B all", transfer(A, B, true)},
 		{"transfer A->C all", transfer(A, C, true)},
@@ -122,9 +124,15 @@ func c15Universe() (WorldSpec, []absOp) {
 		{"unfreeze A F", system(vmcommon.BuiltInFunctionESDTUnFreeze, A, F)},
 		{"wipe A F", system(vmcommon.BuiltInFunctionESDTWipe, A, F)},
 		{"freeze B F", system(vmcommon.BuiltInFunctionESDTFreeze, B, F)},
-		{"pause F shard0", func(*Engine) *Call { return call(0, vmcommon.BuiltInFunctionESDTPause, sys, vmcommon.SystemAccountAddress, F) }},
-		{"unpause F shard0", func(*Engine) *Call { return call(0, vmcommon.BuiltInFunctionESDTUnPause, sys, vmcommon.SystemAccountAddress, F) }},
-		{"pause SFT shard0", func(*Engine) *Call { return call(0, vmcommon.BuiltInFunctionESDTPause, sys, vmcommon.SystemAccountAddress, S) }},
+		{"pause F shard0", func(*Engine) *Call {
+			return call(0, vmcommon.BuiltInFunctionESDTPause, sys, vmcommon.SystemAccountAddress, F)
+		}},
+		{"unpause F shard0", func(*Engine) *Call {
+			return call(0, vmcommon.BuiltInFunctionESDTUnPause, sys, vmcommon.SystemAccountAddress, F)
+		}},
+		{"pause SFT shard0", func(*Engine) *Call {
+			return call(0, vmcommon.BuiltInFunctionESDTPause, sys, vmcommon.SystemAccountAddress, S)
+		}},
 		{"handover A->B", func(e *Engine) *Call {
 			if !e.M.acc(0, A).hasRole(S, vmcommon.ESDTRoleNFTCreate) {
 				return nil // N6: the system contract addresses the hand-over to the current holder
